@@ -1,0 +1,38 @@
+//go:build verif
+
+package security
+
+// Contracts for the deductive verifier in /verif (govc). Comment-only file: adds no code.
+
+// VerifySignature (64-bit wrapping arithmetic): the time check rejects exactly when |seconds - now| exceeds
+// the tolerance in whole seconds, for every int64 timestamp; the verdict is Pass exactly when the header's
+// signature equals the HMAC over timestamp, method, path, query and body hash joined by newlines.
+//@ func VerifySignature
+//@   prop C04
+//@   arith wrapping
+//@   opaque getPathQuery, computeBodySignature, HmacBase64, Infof
+//@   requires r != nil && securityHeader != nil && tolerance >= 0 && tolerance < 4000000000000000000
+//@   let seconds = ret(strconv.ParseInt, 0)
+//@   let now = ret(Unix)
+//@   let tol = tolerance / 1000000000
+//@   let parts = arg(strings.Join, 0)
+//@   observe Seconds = seconds
+//@   observe Now = now
+//@   observe Tol = tol
+//@   ensures [bad-timestamp] ret(strconv.ParseInt, 1) != nil ==> result == httpx.CodeSignatureInvalidHeader
+//@   ensures [time-window] ret(strconv.ParseInt, 1) == nil && 0 <= now && now < 4000000000000000000 ==> (result == httpx.CodeSignatureWrongTime) == (abs(seconds - now) > tol)
+//@   ensures [signed-content] calls(HmacBase64) == 1 ==> len(parts) == 5 && parts[0] == securityHeader.Timestamp && parts[1] == r.Method
+//@     | && parts[2] == ret(getPathQuery, 0) && parts[3] == ret(getPathQuery, 1) && parts[4] == ret(computeBodySignature) && arg(strings.Join, 1) == "\n"
+//@     | && arg(HmacBase64, 1) == ret(strings.Join) && arg(HmacBase64, 0) == securityHeader.Key
+//@   ensures [pass-iff-signature-equal] (result == httpx.CodeSignaturePass) == (calls(HmacBase64) == 1 && securityHeader.Signature == ret(HmacBase64))
+//@   ensures [mismatch] calls(HmacBase64) == 1 && securityHeader.Signature != ret(HmacBase64) ==> result == httpx.CodeSignatureInvalidToken
+
+// ParseContentSecurity: every malformed or unknown part of the header maps to its error; success needs a
+// configured key for the fingerprint.
+//@ func ParseContentSecurity
+//@   prop C04
+//@   opaque ParseHeader
+//@   requires r != nil
+//@   ensures [unknown-key] result1 == nil ==> calls(DecryptBase64) == 1 && ret(DecryptBase64, 1) == nil && ret(DecodeString, 1) == nil && ret(strconv.Atoi, 1) == nil && result0 != nil
+//@   ensures [decrypt-error] calls(DecryptBase64) == 1 && ret(DecryptBase64, 1) != nil ==> result1 == ErrInvalidSecret && result0 == nil
+//@   ensures [error-means-no-header] result1 != nil ==> result0 == nil
